@@ -264,6 +264,30 @@ def run(chk, tier):
         if all(STRUCTURAL.search(p) for p in paths):
             chk.ok("R01.4", "structural|" + name, STRUCTURAL_WHY if nscc < 3 else None)
             continue
+        # self-recursion bounded by a strictly decreasing unsigned parameter: every recursive call passes `param - c` (c >= 1, through
+        # checked_sub's Some payload or a plain subtraction) in the position of that same parameter, so the depth is at most its first value
+        if len(comp) == 1:
+            import mirq
+            fb = F.bodies[comp[0]]
+            qf = mirq.BodyQ(fb)
+            sites_ = [t for blk, t in fb.calls() if lib.callee_of(t)[0] == comp[0]]
+            dec = None
+            for k_ in range(fb.d.get("arg_count", 0)):
+                if not re.match(r"^(u8|u16|u32|u64|u128|usize)$", fb.local_ty(k_ + 1) or ""):
+                    continue
+                rx_ = re.compile(r"^(?:\w+::checked_sub\(p%d, (\d+)\)\.Some\.0|Sub\(p%d, (\d+)\))$" % (k_ + 1, k_ + 1))
+                ok_all = bool(sites_)
+                for t in sites_:
+                    args_ = t.get("args", [])
+                    m_ = rx_.match(mirq.expr_of(qf, args_[k_])) if k_ < len(args_) else None
+                    if not m_ or int(m_.group(1) or m_.group(2)) < 1:
+                        ok_all = False
+                if ok_all:
+                    dec = k_
+                    break
+            if dec is not None:
+                chk.ok("R01.4", "decreasing|" + name, "self-recursion on parameter %d - c, c >= 1 (unsigned): depth is bounded by the first value of that parameter" % (dec + 1))
+                continue
         # a structural recursion may go through pass-through helpers: functions that hand (parts of) their own parameters on and
         # never form a cycle among themselves - the measure (size of the owned value) cannot grow across them
         helpers = [c for c in comp if not STRUCTURAL.search(F.bodies[c].path)]
@@ -426,6 +450,58 @@ def run(chk, tier):
     # ---- R01.7 stack budget of the guarded recursions (thorough tier: needs a code-generating build for the frame sizes)
     if tier == "thorough" or os.environ.get("VERIF_STACK"):
         stack_budget(chk, F, cg, guarded_sccs)
+
+    # ---- R01.8: values built by the evaluator have bounded nesting (what makes the structural recursions of R01.4 bounded)
+    chk.rule("R01.8", "bounded value nesting: a loop of the evaluator that feeds the result of one iteration into the next as a bound value (an accumulator) checks the nesting "
+                      "of that value in every iteration and leaves the loop with an error when it is too deep - otherwise clone / == / drop of the accumulated value recurse without bound")
+    import mirq as _mq8
+    n_acc = 0
+    for b in F.bodies.values():
+        if b.pkg != "rscel" or "::default_macros::" not in b.path and "::interp::" not in b.path:
+            continue
+        q8 = _mq8.BodyQ(b)
+        binds = q8.call_sites(r"BindContext::<'a>::bind_param$")
+        runs = q8.call_sites(r"Interpreter::<'a>::run_raw$")
+        if not binds or not runs:
+            continue
+        for bi, bt, _p in binds:
+            loop = set(x for x in q8.reach(bi) if bi in q8.reach(x))
+            if not loop:
+                continue
+            val = _mq8.expr_of(q8, bt["args"][2]) if len(bt["args"]) > 2 else ""
+            inner_runs = [ri for ri, _t, _ in runs if ri in loop]
+            # carried: the bound value is (also) the result of a run_raw call made inside the same loop
+            if not (inner_runs and "Interpreter::run_raw(" in val and val.startswith("phi(")):
+                continue
+            n_acc += 1
+            key = "%s|accumulator" % lib.short(b.path)
+            cks = [(ci, ct) for ci, ct, _ in q8.call_sites(r"CelValue::nested_deeper_than$") if ci in loop and "Interpreter::run_raw(" in _mq8.expr_of(q8, ct["args"][0])]
+            good = False
+            for ci, ct in cks:
+                lim = lib.op_const_int(ct["args"][1]) if len(ct["args"]) > 1 else None
+                # the true edge of the test must leave the loop
+                cur, sw = ct["t"], None
+                for _ in range(6):
+                    t2 = b.blocks[cur]["term"]
+                    if t2 and t2["k"] == "switch":
+                        sw = t2
+                        break
+                    ss = b.succs(cur)
+                    if len(ss) != 1:
+                        break
+                    cur = ss[0]
+                if not sw or lim is None or not (1 <= lim <= 1024):
+                    continue
+                zero = [c_[1] for c_ in sw["cases"] if int(c_[0]) == 0]
+                true_t = sw["otherwise"] if zero else [c_[1] for c_ in sw["cases"] if int(c_[0]) == 1][0]
+                if not (q8.reach(true_t) & {bi}):
+                    good = True
+            if good:
+                chk.ok("R01.8", key, "nesting of the carried value is tested in the loop; too deep leaves the loop")
+            else:
+                chk.bad("R01.8", key, "%s binds the result of the previous iteration for the next one without bounding its nesting: `l.reduce(acc, x, [acc], 0)` nests one level per element, "
+                                      "and cloning / comparing / dropping a value nested 20000 deep overflows the stack" % lib.short(b.path), b.file)
+    chk.floor("R01.8", "accumulating loops in the evaluator (reduce)", n_acc, 1)
 
     # ---- R01.5
     cj = F.body("rscel::interp::interp::Interpreter::<'a>::checked_jump_target")
